@@ -31,7 +31,7 @@ def main():
                 print("MUTATION-ERROR: %r occurs %d times in %s (want %d)" % (a[2], cnt, a[1], want)); return 2
             open(path, "w").write(s.replace(a[2], a[3]))
         tier = rest[rest.index("--tier") + 1] if "--tier" in rest else "quick"
-        env = dict(os.environ, VERIF_REPO_SRC=scratch + "/src", VERIF_EVIDENCE_DIR=scratch + "/evidence", VERIF_FOUND_DIR=scratch + "/found")
+        env = dict(os.environ, VERIF_REPO_SRC=scratch + "/src", VERIF_EVIDENCE_DIR=scratch + "/evidence", VERIF_FOUND_DIR=scratch + "/found", VERIF_STOP_ON_VIOLATION="1")
         env.pop("VT_REEXEC", None)
         rc = 0
         for pid in pids:
